@@ -312,6 +312,15 @@ func ruleCapture(c *Ctx) *RuleResult {
 		case "saved":
 			recordUsed[fc.record] = true
 			check(hasTransfer(save, "new(save)."+fc.record, iterPath), "graph/search.Save:"+fc.record+" not captured", savePos, "Save does not copy %s into the record field %s", iterPath, fc.record)
+			// and nothing else is stored there: a second store (the value reduced, clamped, defaulted)
+			// makes the record differ from the iterator it was taken from
+			for _, t := range save {
+				if (t.dst == "new(save)."+fc.record && t.src != iterPath) || (t.dst == "new(save)."+fc.record+"[*]" && t.src != iterPath+"[*]") {
+					r.inst("Save: record field %s is stored from %s only", fc.record, iterPath)
+					r.oblig(false)
+					r.find("graph/search.Save:"+fc.record+" also stored from "+t.src, c.instrPos(t.in), "Save stores into the record field %s a value other than %s (%s): the record no longer describes the iterator it was taken from", fc.record, iterPath, t.src)
+				}
+			}
 			if name == "G" {
 				// restored field by field into the preallocated graph
 				for i := 0; i < dgT.NumFields(); i++ {
